@@ -1,4 +1,5 @@
 import SkoolVerif.Proofs.CmioVsSimRun
+import SkoolVerif.Proofs.BusStep
 /-!
 C19 — contention simulation only ever adds the delays the ULA would impose.
 Models: `Gen/CmioHandlers.lean` (translated from cmiosimulator.py on every run),
@@ -116,5 +117,178 @@ theorem io_pattern_is_four_tstates {μ : Type} [MemLike μ] (cfg : Cfg) (m : μ)
 
 example : pattern 0 = 6 ∧ pattern 5 = 1 ∧ pattern 6 = 0 ∧ pattern 7 = 0 := by decide
 example : contend48 14335 [(0x4000, 4), (0x8000, 3), (0x4000, 3)] = 6 + 1 := by decide
+
+/-! ### Each extra delay is the documented wait pattern over the instruction's documented cycles
+
+`Spec/Z80Bus.lean` is an independent, executable bus-level specification: for every `ZInstr` the ordered
+machine cycles (address on the bus, T-states; I/O cycles by port) written from the documented contention
+tables, and `busDelay` = the sum, over those cycles in order, of the ULA wait at the T-state each cycle
+begins.  The theorems below tie `cmiosimulator.py` (translated on every run) to it, for the instruction
+that the independent fetch + decode of C05 finds at PC — not for a closure name.  Per-closure proofs:
+`Gen/CmioBusThms.lean` (generated, one theorem per closure), `Proofs/BusStep.lean`.
+-/
+section Bus
+open Z80Bus C19Bus Spec Z80Decode
+variable {μ : Type} [MemLike μ] [CellMem μ]
+
+/-- **Main theorem.**  From every in-range state inside the contended window, whatever bytes are at PC:
+the contended simulator takes exactly the plain simulator's T-states plus the delay the documented
+pattern gives for the instruction at PC — the sum over its memory, internal and I/O cycles, in order, of
+the 6,5,4,3,2,1,0,0 wait at the T-state each cycle begins.  All instructions and addressing forms,
+conditional instructions taken and not taken, block instructions repeating and terminating, HALT.
+`hot`: the one spec entry where documentation and code differ is set aside — a *repeating* OTIR/OTDR
+whose BC changes contention class when B is decremented (see `otir_repeat_cycles_differ`); for every
+other instruction and state the hypothesis holds trivially (`otirRepeats_false_of_not_block_out`). -/
+theorem delay_equals_documented_pattern (cfg : Cfg) (s : St μ) (hi : RInv s)
+    (hw : cfg.t0 < s.t % cfg.frame_duration ∧ s.t % cfg.frame_duration < cfg.t1)
+    (hot : otirRepeats s (decode (fetch s).1 (fetch s).2.toNat) = false ∨
+      contended s.mem (addrVal s .bcOut) = contended s.mem (addrVal s (.rp .BC))) :
+    (Cmio.step cfg s).t = (Sim.step cfg s).t +
+      busDelay .documented cfg s (decode (fetch s).1 (fetch s).2.toNat) := by
+  rw [bus_step cfg s hi hw]
+  rcases hot with h | h
+  · rw [busDelay_variant cfg s _ h]
+  · rw [busDelay_variant_same_class cfg s _ h]
+
+/-- The same for every instruction without exception, under the specification variant that models the
+five repeat cycles of OTIR/OTDR as SkoolKit does (BC as it was before the instruction). -/
+theorem delay_equals_pattern_skoolkit_otir (cfg : Cfg) (s : St μ) (hi : RInv s)
+    (hw : cfg.t0 < s.t % cfg.frame_duration ∧ s.t % cfg.frame_duration < cfg.t1) :
+    (Cmio.step cfg s).t = (Sim.step cfg s).t +
+      busDelay .skoolkit cfg s (decode (fetch s).1 (fetch s).2.toNat) := bus_step cfg s hi hw
+
+/-- … and at every frame position (the simulator's window guard loses nothing): when the frame
+constants are those of the machine (`CfgMatches`: 48K list memory ↔ 69888/14312/57245, 128K paged
+memory ↔ 70908/14338/58035, `cfg_matches_machine`), outside the window the specification's delay is 0
+as well (`spec_no_delay_outside_window`). -/
+theorem delay_equals_pattern_everywhere (cfg : Cfg) (s : St μ) (hi : RInv s) (hm : CfgMatches cfg s.mem) :
+    (Cmio.step cfg s).t = (Sim.step cfg s).t +
+      busDelay .skoolkit cfg s (decode (fetch s).1 (fetch s).2.toNat) := bus_step_everywhere cfg s hi hm
+
+omit [CellMem μ] in
+theorem cfg_matches_machine (m : μ) : CfgMatches (Contend.cfgFor (MemLike.is128 m)) m := ⟨rfl, rfl, rfl⟩
+
+theorem spec_no_delay_outside_window (v : Variant) (cfg : Cfg) (s : St μ) (hi : RInv s) (hm : CfgMatches cfg s.mem)
+    (hout : ¬ (cfg.t0 < s.t % cfg.frame_duration ∧ s.t % cfg.frame_duration < cfg.t1)) :
+    busDelay v cfg s (decode (fetch s).1 (fetch s).2.toNat) = 0 :=
+  busDelay_zero_outside v cfg s _ (fetch_decodable s hi) hm hout
+
+/-- the per-closure statement behind the main theorem: every closure of the contended simulator, every
+argument tuple that denotes an instruction (`zinstrOf`), for the decoded instruction `i'` it stands for -/
+theorem closure_delay_equals_pattern (cfg : Cfg) (i : Sim.Instr) (s : St μ) (d : Decoded) (i' : Z80Isa.ZInstr)
+    (hz : C05.zinstrOf i = some d) (hc : C05.canonD d = C05.canonD (Decoded.of i')) (hd : Decodable i')
+    (hi : RInv s) (hw : cfg.t0 < s.t % cfg.frame_duration ∧ s.t % cfg.frame_duration < cfg.t1) :
+    (Cmio.execLeaf cfg (CmioVsSim.toCmio i) s).t = (Sim.execLeaf cfg i s).t + busDelay .skoolkit cfg s i' :=
+  bus_execLeaf cfg i s d i' hz hc hd hi hw
+
+omit [CellMem μ] in
+/-- only a block output instruction can be an `otirRepeats` case -/
+theorem otirRepeats_false_of_not_block_out (s : St μ) (i : Z80Isa.ZInstr) (h : ∀ dec, i ≠ .block .OUT dec true) :
+    otirRepeats s i = false := by
+  cases i <;> try rfl
+  rename_i k dec rep
+  cases k <;> try rfl
+  cases rep
+  · rfl
+  · exact absurd rfl (h dec)
+
+omit [CellMem μ] in
+/-- "each delay equals the sum, over the cycles in order, of the wait at the T-state each cycle begins":
+the defining equations of the fold — a contended piece of `n` T-states starting at `t` waits `wait t`,
+and the next piece starts at `t + wait t + n`; an uncontended one waits 0. -/
+theorem delay_is_sum_in_order (m : μ) (t : Int) (c : Bool) (n : Int) (l : List (Bool × Int)) :
+    delayFrom m t [] = 0 ∧
+    delayFrom m t ((c, n) :: l) = (if c then wait m t else 0) + delayFrom m (t + (if c then wait m t else 0) + n) l :=
+  ⟨rfl, rfl⟩
+
+omit [CellMem μ] in
+theorem busDelay_def (v : Variant) (cfg : Cfg) (s : St μ) (i : Z80Isa.ZInstr) :
+    busDelay v cfg s i = delayFrom s.mem (s.t % cfg.frame_duration) (pieces s (shape v i (branch s i))) := rfl
+
+omit [CellMem μ] in
+/-- the wait is the documented 6,5,4,3,2,1,0,0 pattern of the machine's frame layout -/
+theorem wait_is_documented_pattern (m : μ) (row col : Int) (hr : 0 ≤ row ∧ row < 192) (hc : 0 ≤ col ∧ col < 128) :
+    (MemLike.is128 m = false → wait m (14335 + 224 * row + col) = Z80Bus.pattern (col % 8)) ∧
+    (MemLike.is128 m = true → wait m (14361 + 228 * row + col) = Z80Bus.pattern (col % 8)) := by
+  constructor
+  · intro h; rw [wait_eq, h]; exact Contend.delays48_pattern row col hr hc
+  · intro h; rw [wait_eq, h]; exact Contend.delays128_pattern row col hr hc
+
+/-- no delay when no address or port the instruction puts on the bus is contended (0x4000-0x7FFF;
+0xC000-0xFFFF with an odd bank on a 128K): then the contended step takes exactly the plain step's T-states -/
+theorem same_tstates_if_no_contended_address (cfg : Cfg) (s : St μ) (hi : RInv s)
+    (hw : cfg.t0 < s.t % cfg.frame_duration ∧ s.t % cfg.frame_duration < cfg.t1)
+    (hu : anyContended .skoolkit s (decode (fetch s).1 (fetch s).2.toNat) = false) :
+    (Cmio.step cfg s).t = (Sim.step cfg s).t := by
+  rw [bus_step cfg s hi hw, busDelay_zero_of_uncontended _ cfg s _ hu, Int.add_zero]
+
+/-- the specification is consistent with the instruction timings of C05: for every opcode of every prefix
+page, in every state, its cycles add up to the documented T-states of the instruction (taken / not taken) -/
+theorem spec_cycles_add_up (v : Variant) (s : St μ) (hi : RInv s) :
+    cyclesLen (busCycles v s (decode (fetch s).1 (fetch s).2.toNat)) =
+      (((if branch s (decode (fetch s).1 (fetch s).2.toNat) then (decode (fetch s).1 (fetch s).2.toNat).time.2
+          else (decode (fetch s).1 (fetch s).2.toNat).time.1 : Nat)) : Int) :=
+  cycles_total v s _ (fetch_decodable s hi)
+
+/-- the four documented I/O cases -/
+theorem io_cases : ioPieces false false = [(false, 1), (true, 3)] ∧ ioPieces false true = [(false, 4)] ∧
+    ioPieces true false = [(true, 1), (true, 3)] ∧ ioPieces true true = [(true, 1), (true, 1), (true, 1), (true, 1)] :=
+  ⟨rfl, rfl, rfl, rfl⟩
+
+/-! #### where documentation and code differ: the five repeat cycles of OTIR / OTDR
+
+`cmiosimulator.py` (`outi`: `contend(tm + 16 + delay, ((bc, 1),) * 5)` with `bc` read before
+`b = (b - 1) % 256`) and `csimulator.c` put the *pre-decrement* BC on the bus during the five extra
+cycles of a repeating OTIR/OTDR, although the I/O cycle of the same instruction (correctly) uses the
+post-decrement value; at that point of the instruction B has already been decremented (FUSE: `B--`
+first, then `contend_read_no_mreq( BC, 1 )` five times).  The two readings give different delays only
+when B-1 and B fall in different contention classes. -/
+
+/-- a 48K machine about to execute OTIR at 0x0000 with B = 0x40, C = 0x01, HL = 0x8000, 16 T-states
+before the first contended T-state of the frame: the port 0x3F01 is not contended, the five repeat
+cycles start at T = 14335 -/
+def otirState : St Mem48 :=
+  { reg := #[0, 0, 0x40, 0x01, 0, 0, 0x80, 0, 0, 0, 0, 0, 0xFFFF, 0, 0, 0, 0, 0, 0, 0, 0, 0, 0, 0],
+    mem := ⟨#[0xED, 0xB3]⟩, pc := 0, t := 14319, iff := 0, im := 0, halt := 0, memptr := 0, ins := [], outs := [], inLog := [] }
+
+theorem otirState_instr : decode (fetch otirState).1 (fetch otirState).2.toNat = .block .OUT false true := by
+  decide +kernel
+
+/-- documented reading: BC = 0x3F01 on the bus, no delay; SkoolKit's reading: BC = 0x4001, 6+0+6+0+6 -/
+theorem otir_repeat_cycles_differ :
+    busDelay .documented {} otirState (.block .OUT false true) = 0 ∧
+    busDelay .skoolkit {} otirState (.block .OUT false true) = 18 := by decide +kernel
+
+/-- … and the simulator model follows SkoolKit's reading there: 21 + 18 T-states -/
+theorem otir_repeat_cycles_model : (Cmio.step {} otirState).t = 14319 + 21 + 18 ∧ (Sim.step {} otirState).t = 14319 + 21 := by
+  decide +kernel
+
+end Bus
+
+/-! the specification on concrete instructions (documented breakdowns) -/
+section BusExamples
+open Z80Bus Z80Isa Z80Decode
+-- NOP: pc:4
+example : shape .documented (decode .MAIN 0x00) false = [.m (.pc 0) 4] := by decide
+-- LD A,(nn): pc:4,pc+1:3,pc+2:3,nn:3
+example : shape .documented (decode .MAIN 0x3A) false = [.m (.pc 0) 4, .m (.pc 1) 3, .m (.pc 2) 3, .m (.nn 1) 3] := by decide
+-- INC (HL): pc:4,hl:3,hl:1,hl(write):3
+example : shape .documented (decode .MAIN 0x34) false = [.m (.pc 0) 4, .m (.rp .HL) 3, .m (.rp .HL) 1, .m (.rp .HL) 3] := by decide
+-- DJNZ: pc:4,ir:1,pc+1:3,[pc+1:1 x5]
+example : shape .documented (decode .MAIN 0x10) true =
+    [.m (.pc 0) 4, .m .ir 1, .m (.pc 1) 3, .m (.pc 1) 1, .m (.pc 1) 1, .m (.pc 1) 1, .m (.pc 1) 1, .m (.pc 1) 1] := by decide
+-- PUSH IX: pc:4,pc+1:4,ir:1,sp-1:3,sp-2:3
+example : shape .documented (decode .DD 0xE5) false = [.m (.pc 0) 4, .m (.pc 1) 4, .m .ir 1, .m (.sp (-1)) 3, .m (.sp (-2)) 3] := by decide
+-- RLC (IY+d): pc:4,pc+1:4,pc+2:3,pc+3:3,pc+3:1 x2,iyd:3,iyd:1,iyd(write):3
+example : shape .documented (decode .FDCB 0x06) false =
+    [.m (.pc 0) 4, .m (.pc 1) 4, .m (.pc 2) 3, .m (.pc 3) 3, .m (.pc 3) 1, .m (.pc 3) 1, .m (.ea .IY) 3, .m (.ea .IY) 1, .m (.ea .IY) 3] := by decide
+-- OUTI: pc:4,pc+1:4,ir:1,hl:3,I/O with B already decremented
+example : shape .documented (decode .ED 0xA3) false = [.m (.pc 0) 4, .m (.pc 1) 4, .m .ir 1, .m (.rp .HL) 3, .io .BCout] := by decide
+-- INIR repeating: pc:4,pc+1:4,ir:1,I/O (B as it was),hl:3,hl:1 x5
+example : shape .documented (decode .ED 0xB2) true =
+    [.m (.pc 0) 4, .m (.pc 1) 4, .m .ir 1, .io .BC, .m (.rp .HL) 3, .m (.rp .HL) 1, .m (.rp .HL) 1, .m (.rp .HL) 1, .m (.rp .HL) 1, .m (.rp .HL) 1] := by decide
+-- a wait of 6 then 4+... : NOP in contended memory at the first contended T-state
+example : delayFrom (⟨#[]⟩ : Z80.Mem48) 14335 [(true, 4), (false, 3), (true, 3)] = 6 + 1 := by decide +kernel
+end BusExamples
 
 end C19
